@@ -72,7 +72,10 @@ class C17Episode(Episode):
                     n0 = len(ep.records)
                     # would this read block? (the real pipe is blocking)
                     import select as _select
-                    rl, _, _ = _select.select([fd], [], [], 0)
+                    # (poll: select() cannot take numbers above 1023)
+                    _p = _select.poll()
+                    _p.register(fd, _select.POLLIN | _select.POLLHUP)
+                    rl = _p.poll(0)
                     if not rl:
                         ep.would_block.append((key, fd))
                     r = Redirector.Handler.__call__(self, fd, events)
@@ -564,9 +567,23 @@ class C17Episode(Episode):
     def run(self):
         import circus.watcher
         import circus.stream.redirector as _rmod
+        filler = []
+        if self.cfg.get('high_fds'):
+            # a daemon that holds a lot of descriptors (sockets, hundreds of
+            # workers): every pipe of this run gets a number above 1023
+            fd = os.open(os.devnull, os.O_RDONLY)
+            filler.append(fd)
+            while fd < 1030:
+                fd = os.dup(fd)
+                filler.append(fd)
         try:
             return super().run()
         finally:
+            for fd in filler:
+                try:
+                    os.close(fd)
+                except OSError:
+                    pass
             circus.watcher.Redirector = self._orig_redirector
             if getattr(self, '_orig_redir_os', None) is not None:
                 _rmod.os = self._orig_redir_os
@@ -667,7 +684,8 @@ class C17(Prop):
     level = 'exploration'
     rule = ('one case = 1-2 watchers with collecting stdout/stderr streams, '
             'Redirector buffer 16/1024/4096, 1-4 concurrent writer workers on '
-            'real os.pipe pairs and a real epoll; each worker follows a write '
+            'real os.pipe pairs and a real epoll (in 6 % of the cases with '
+            'descriptor numbers above 1023); each worker follows a write '
             'plan (chunk sizes 1 B .. 70 kB incl. sizes around the buffer and '
             'the pipe capacity, delays, optional early channel close, '
             'optional exit right after the last write, in a quarter of those '
@@ -740,6 +758,8 @@ class C17(Prop):
                                kinds=('obedient',), grace=[0.05, 0.25],
                                warmup=[0, 0.05])
         cfg['buffer'] = rng.choice([16, 1024, 1024, 4096])
+        if rng.random() < 0.06:
+            cfg['high_fds'] = True
         cfg['max_steps'] = 300000
         cfg['step_cost'] = rng.choice([0.0, 0.0, 1e-4, 1e-3, 5e-3])
         cfg['check_delay'] = rng.choice([0.3, 1.0, 5.0])
